@@ -1,3 +1,4 @@
+mod dft;
 mod hal;
 mod util;
 
@@ -26,6 +27,7 @@ fn main() {
             let cases = read_ndjson(&args[2]);
             let mut out = BufWriter::new(std::fs::File::create(&args[3]).unwrap());
             let mut mods = hal::Mods::new();
+            let mut dmods = dft::DMods::new();
             let seed = env_seed();
             let mut nev = 0usize;
             for (idx, c0) in cases.iter().enumerate() {
@@ -48,7 +50,8 @@ fn main() {
                 c["nchunks"] = serde_json::json!(nchunks);
                 for chunk in 0..nchunks {
                     c["chunk"] = serde_json::json!(chunk);
-                    let ev = if c["op"].as_str().unwrap().starts_with("encode_") { hal::run_encode_case(&c, seed) } else { hal::run_case(&mut mods, &c, seed) };
+                    let opn = c["op"].as_str().unwrap().to_string();
+                    let ev = if opn.starts_with("encode_") { hal::run_encode_case(&c, seed) } else if dft::is_dft_op(&opn) { dft::run_dcase(&mut dmods, &c, seed) } else { hal::run_case(&mut mods, &c, seed) };
                     writeln!(out, "{}", serde_json::to_string(&ev).unwrap()).unwrap();
                     nev += 1;
                 }
